@@ -845,3 +845,16 @@ world
         assert_eq!(Some(("```", "", "")), extract_code_block_start("```"));
     }
 }
+
+/// Verification hooks (compiled only with `--cfg scrut_verif`): forwarding wrappers that expose
+/// crate-private leaf functions to the external harness crates. No behaviour of its own.
+#[cfg(scrut_verif)]
+pub mod verif_hooks {
+    pub fn extract_code_block_start(line: &str) -> Option<(&str, &str, &str)> {
+        super::extract_code_block_start(line)
+    }
+
+    pub fn extract_title(line: &str) -> Option<(String, String)> {
+        super::extract_title(line)
+    }
+}
